@@ -25,8 +25,8 @@ type c04 struct{}
 
 func init() { register(&c04{}) }
 
-func (*c04) ID() string                      { return "C04" }
-func (*c04) Level() string                   { return "fault_enumeration" }
+func (*c04) ID() string                     { return "C04" }
+func (*c04) Level() string                  { return "fault_enumeration" }
 func (*c04) Decode(raw []byte) (any, error) { return decodeInto[SendScenario](raw) }
 
 type c04Pos struct {
